@@ -94,7 +94,9 @@ func (r structReflect) update(fieldEntry *FieldCacheEntry, key string, oldVal, n
 		if r.ParentMapKey == nil {
 			panic("ParentMapKey must not be nil if ParentMap is not nil")
 		}
+		// the replacement starts as a copy of the item, so that only this field changes
 		replacement := reflect.New(r.Value.Type()).Elem()
+		replacement.Set(r.Value)
 		fieldEntry.GetFrom(replacement).Set(newVal)
 		r.ParentMap.SetMapIndex(*r.ParentMapKey, replacement)
 		return
